@@ -162,6 +162,49 @@ def run(chk):
            site=C.site(b), sample={"closures": [c[0] for c in cl_sizes]})
     r123(chk, w)
     r125(chk, w)
+    r126(chk, w)
+
+
+def r126(chk, w):
+    """the per-category tables of train_tag (tag -> id maps, tag lists) have one entry per tag category of the WIDEST example: the
+    collection loop zips every example's tags with them, and a zip stops at the shorter side - categories beyond the tables' size
+    are silently never recorded"""
+    chk.rule("R12.6", "train_tag sizes its per-category tables by the maximum number of tag categories over all examples")
+    fn = TT + "::train_tag"
+    b, it, outs = C.run_fn(w, fn)
+    sizes = []
+    for e, o in C.all_calls(outs, lambda e_: (e_[2] or "").endswith("from_elem")):
+        ty = C.tyn(b.locals[e[4]]["ty"]) if len(e) > 4 and e[4] is not None else ""
+        if not ("HashMap<" in ty or "Vec<S::vec::Vec<S::string::String>>" in ty or "Vec<Vec<S::string::String>>" in ty):
+            continue
+        nz = forms.Normalizer(it, o)
+        v = it.resolve(o, e[3][1])
+        info = nz.ret_info.get(v[1]) if v[0] == "sym" else None
+        ok, how = False, nz.value_atom(v)[:160]
+        if info:
+            callee, args = info
+            clo = [a for a in args if a[0] == "agg" and str(a[1]).startswith("closure:")]
+            cforms = None
+            if clo:
+                cb = w.body(clo[0][1][len("closure:"):])
+                if cb is not None:
+                    ci = absint.Interp(w, cb, models=effects.EXTRA_MODELS)
+                    cforms = sorted({forms.show(forms.Normalizer(ci, x).form(x.value_at((("L", 0),)))) if x.kind == "return" else x.kind for x in ci.run(0)})
+            src = nz.value_atom(args[0]) if args else ""
+            over_examples = "arg2" in src
+            if (callee or "").endswith("::fold") and len(args) == 3 and args[1] == absint.I(0) and over_examples:
+                ok = cforms is not None and len(cforms) == 1 and re.fullmatch(r"max\((?:\[T\]|alloc::vec::Vec)::len\(&\*?\{?m?:?arg3\.tags\}?\), arg2\)", cforms[0]) is not None
+                how = "fold(0, |acc, x| %s)" % cforms
+            elif (callee or "").endswith("unwrap_or") and len(args) == 2 and args[1] == absint.I(0) and "::max(" in src and "arg2" in src:
+                # examples.iter().map(|x| x.tags.len()).max().unwrap_or(0)
+                ok = True
+                how = "map(len).max().unwrap_or(0)"
+        sizes.append((e[1], ok, how))
+    chk.floor("R12.6", "per-category tables", len(sizes), 2)
+    for k, (bb, ok, how) in enumerate(sizes):
+        chk.ob("R12.6", "train_tag:table[%d]:sized-by-max-categories" % k, ok,
+               "a per-category table of train_tag has size `%s`; expected the maximum of tags.len() over all examples (fold(0, |acc, x| acc.max(x.tags.len())) or map/max): "
+               "with any smaller size the zip in the collection loop drops the tags of the later categories" % how, site=C.site(b, bb), sample={"size": how})
 
 
 def r125(chk, w):
